@@ -15,6 +15,7 @@ RULE = ("one case per axis length N: all N in 2..64 (thorough 2..160) plus rando
         "{time-first, frequency-first} for the axis clauses and data kind {complex random, real, hermitian, delta, windowed} "
         "for the transform clauses. distinct = (clause family, N, axis type, start class, data kind); non-trivial iff N >= 3 "
         "and the data have at least two non-zero samples (delta: position not at index 0).")
+RULE = RULE + " Round-6 workloads: after the first transforms the values of the function and of its spectrum are changed in place and the transforms repeated."
 ASSUMPTIONS = ["transform clauses use complete axes centred at zero (t_n = (n - N//2) dt) and upper-half axes starting at 0, as the statement says",
                "upper-half data have a real first sample (Hermitian-extendable)"]
 MIN_NONTRIVIAL = {"quick": 400, "thorough": 1200}
